@@ -219,11 +219,16 @@ class XMLTransformerPipeline(BaseTransformerPipeline):
 
             new_lines = output_file.readlines()
             # TODO there's a failure potential here for very large files
-            original_lines = (
-                file_context.file_path.read_bytes()
-                .decode("utf-8")
-                .splitlines(keepends=True)
-            )
+            try:
+                original_lines = (
+                    file_context.file_path.read_bytes()
+                    .decode("utf-8")
+                    .splitlines(keepends=True)
+                )
+            except Exception:
+                file_context.add_failure(file_path, reason := "Failed to read XML file")
+                logger.exception("%s %s", reason, file_path)
+                return None
             diff = create_diff(
                 original_lines,
                 new_lines,
